@@ -133,7 +133,18 @@ func judgeC12(hi *Hist) []*Violation {
 		for _, g := range f.Groups {
 			drawn[g.Bar] = true
 		}
-		for kk, recs := range cols {
+		var colKeys []key
+		for kk := range cols {
+			colKeys = append(colKeys, kk)
+		}
+		sort.Slice(colKeys, func(i, j int) bool {
+			if colKeys[i].side != colKeys[j].side {
+				return colKeys[i].side < colKeys[j].side
+			}
+			return colKeys[i].col < colKeys[j].col
+		}) // the first violation is the one reported: it must not depend on map order
+		for _, kk := range colKeys {
+			recs := cols[kk]
 			if len(recs) >= 2 {
 				note("c12_columns_checked")
 			}
